@@ -54,3 +54,21 @@ check("C15", "internal/zzverif/c15",
       level_text="Differential run against an independent trie model on generated entry sets with adversarial shared prefixes and values around the 32-byte boundary; held = no divergence on what was explored.",
       note="Trusts the node layout as given in the property statement (0x80|len embedded leaf, 0xC0 hashed leaf, branch with first bit cleared) implemented in harness/internal/zzverif/reftrie. Full-State roots are checked in C17's state generator part.",
       shards=(8, 16), floors={"any": {"entries": 50000, "max_depth_ge_200": 1}}, assumptions=[STANDIN_VRF])
+
+check("C20", "internal/zzverif/c20",
+      rule="shuffle: every length 0..1100 x {identity, repeated core-like values, random} x random/zero entropy compared with an iterative Fisher-Yates model driven by Q_l(h)=LE32 words of blake2b(h||E4(i/8)) (x/crypto), permutation and determinism checks; "
+           "assignment: NewGuranatorAssignments for every slot of 3 epochs, tiny (V=6,C=2) and full (V=1023,C=341), vs model (shuffle of floor(C*i/V), rotated by (slot mod E)/R), per-core share, +1 core per rotation period, repeat-call equality. "
+           "distinct_nontrivial = distinct (length>=2, entropy) shuffles + distinct (mode, entropy, slot) assignments",
+      technique="reference-model monitor (Fisher-Yates / rotation model) + invariant monitor (permutation, share, rotation), every length 0..1100",
+      level_text="Differential run against an independent model on every length 0..1100 and every slot of three epochs under both parameter sets; held = no divergence on what was explored.",
+      note="Trusts the F.1-F.3 model in harness/internal/zzverif/c20. Cross-process determinism follows from equality with the deterministic model in every shard process.",
+      shards=(8, 16), floors={"any": {"shuffles": 3000, "assignments_tiny": 100, "assignments_full": 1000, "rotation_pairs": 500}},
+      exhaustive="all sequence lengths 0..1100; all slots of 3 epochs (tiny and full)", assumptions=[STANDIN_VRF])
+
+check("C29", "internal/zzverif/c29",
+      rule="grid: every validator count V in 0..1100; all index pairs (including -1 and V) for V<=40 (thorough <=120), 200 structured pairs (last partial row, same row, same column, equal) beyond; IsNeighborInEpoch vs integer-sqrt model, symmetry, irreflexivity, NeighborIndicesInEpoch, AllNeighborValidators (+ same index in previous/next epoch, epochs of different size), ValidatorManager.IsNeighbor; "
+           "initiator: random and adversarial key pairs (equal, differing only in bit 7 of byte 31, only in byte 0, single bit) checked for symmetry, membership and the definition. distinct_nontrivial = distinct V>=2 + distinct key pairs",
+      technique="reference-model monitor (grid definition with integer sqrt) + symmetry invariant monitor, all V in 0..1100",
+      level_text="Exhaustive over validator counts 0..1100 (all pairs for small counts) and sampled adversarial key pairs; held = no divergence on what was explored.",
+      note="Trusts the 10-line grid definition in the harness.",
+      shards=(8, 16), floors={"any": {"pairs": 100000, "key_pairs": 50000}}, exhaustive="all V in 0..1100; all pairs for V<=40")
